@@ -20,6 +20,7 @@ import time
 ROOT = os.path.dirname(os.path.dirname(os.path.abspath(__file__)))
 sys.path.insert(0, ROOT)
 REPO_SRC = os.environ.get("VF_REPO_SRC", "/repo/src")
+OUT = os.environ.get("VF_OUT", ROOT)  # evidence/ and replays/ (tools that examine a scratch copy set this)
 if REPO_SRC not in sys.path:
     sys.path.insert(0, REPO_SRC)
 
@@ -183,7 +184,7 @@ def run_property(pid, tier, seed, only=None, verbose=False):
             continue
         seen.add(sg)
         h = hashlib.sha1(sg.encode()).hexdigest()[:10]
-        d = os.path.join(ROOT, "replays", pid)
+        d = os.path.join(OUT, "replays", pid)
         os.makedirs(d, exist_ok=True)
         path = os.path.join(d, f"{h}.json")
         with open(path, "w") as fh:
@@ -276,7 +277,7 @@ def write_evidence(pid, tier, seed, mod, results, extra, xs, violations, known_h
         },
         "assumptions": getattr(mod, "ASSUMPTIONS", []),
     }
-    d = os.path.join(ROOT, "evidence")
+    d = os.path.join(OUT, "evidence")
     os.makedirs(d, exist_ok=True)
     with open(os.path.join(d, f"{pid}.json"), "w") as f:
         json.dump(ev, f, indent=1, default=repr)
